@@ -184,4 +184,83 @@ PROPS = {
         "trusted_base": COMMON_TB,
         "assumptions": ["only fast-forward merges are recorded (merge commits carrying the predicted tree, and real three-way merges, are not generated)"],
     },
+    "C10": {
+        "test": "TestC10",
+        "lean_modules": ["Gittuf.Props.C10"],
+        "n": {"quick": 64, "thorough": 960},
+        "min_per_shard": 16,
+        "rule": "layer (a), the path codec, only (kind \"paths\"; the verification layer is C10b): per case one commit on a real repository - "
+                "root commit (30%), linear child modifying / adding / deleting paths (40%), merge commit with two parents incl. tree-same "
+                "as first / last parent (30%) - i.e. 1-3 trees (quick: about 150 trees) of 1-7 leaves, 1-3 components deep, components from an "
+                "alphabet of safe names that are prefixes of one another (fo, foo, foobar, foo.txt) and odd names: blanks inside / leading / "
+                "trailing / only, tab, 0x01, 0x7f, ESC, BEL..CR, double quote, backslash, literal \\303\\251, e-acute, CJK, invalid UTF-8, "
+                "trailing NBSP, glob characters (* ? [ { **), '-', '#', quote, '$', '~', ':'; modes 100644 / 100755 / 120000. Objects are "
+                "written by the harness itself as loose objects (never through gitinterface's writers; git fsck checks them at the end); the "
+                "truth is git's own NUL-delimited output (ls-tree -r -t -z, diff-tree -r -z --name-only). The real "
+                "GetFilePathsChangedByCommit, GetAllFilesInTree and GetEntriesInTree (root tree and one subtree) are compared with the "
+                "model (git's C-quoting renderer composed with gittuf's parsers as coded) and judged against the truth (verbatim). "
+                "non-trivial = some name of the case needs quoting or contains a blank; distinct by input hash.",
+        "trusted_base": COMMON_TB + ["git's quoting rule (quote.c, default core.quotePath) is modelled by hand and exercised on every case through the real git binary"],
+        "assumptions": ["path components are never '.', '..', '.git' or empty and contain no NUL or newline (the statement excludes newline)",
+                        "a root commit with an empty tree is not generated (the reader returns one empty path for it)"],
+    },
+    "C18": {
+        "test": "TestC18",
+        "lean_modules": ["Gittuf.Props.C18"],
+        "n": {"quick": 48, "thorough": 720},
+        "min_per_shard": 8,
+        "timeout": "120m",
+        "rule": "per case a real bare upstream and a real bare downstream repository (shared per shard, references reset, blob contents unique "
+                "per case): 1-3 upstream commits with generated trees (nested directories, names that are prefixes of one another, odd names "
+                "in 40% of the cases, modes 100755 / 120000 in 30%), an upstream RSL recorded through the real rsl API with the states "
+                "{no entry, entries for one or two references, skip-annotated latest entry, entry added between two calls}; a downstream "
+                "tree with own files, siblings of the downstream path (foobar/x, foo.txt, foo-old/keep, 'foo 2'), stale or already "
+                "up-to-date content below the downstream path; 1-2 tufv02 directives (with / without upstream path, with / without trailing "
+                "slash, odd downstream paths, rarely a missing upstream path) and 1-3 calls of the real "
+                "PropagateChangesFromUpstreamRepository. After every call the downstream tree (ls-tree -r -t -z), the commits created and "
+                "the downstream RSL entries (kind, reference, upstream location, upstream entry id, target) are compared with the model of "
+                "CreateSubtreeFromUpstreamRepository / TreeBuilder / git mktree / the already-propagated check, and judged against the "
+                "prescribed result (replaceAt, one entry per needed propagation, none when up to date). non-trivial = some call created or "
+                "had to create a commit; distinct by input hash.",
+        "trusted_base": COMMON_TB + ["git mktree's C-unquoting of names starting with a double quote and git's output quoting are modelled by hand and exercised on every case"],
+        "assumptions": ["a tree object's identity is its content; the downstream object store is modelled as the set of trees of the downstream history",
+                        "when a blob entry's name (as read) is also a directory of another entry the outcome depends on Go's map order: the driver accepts either resolution",
+                        "gitlinks (submodules) and worktree restoration (non-bare repositories with HEAD on the downstream reference) are not generated"],
+    },
+    "C16": {
+        "test": "TestC16",
+        "lean_modules": ["Gittuf.Props.C16"],
+        "n": {"quick": 16, "thorough": 100000},
+        "shards": 1,
+        "timeout": "180m",
+        "rule": "operation in {record entry, annotation, State.Commit(with entry), Apply, Discard, ReconcileStaging, Attestations.Commit} x starting "
+                "state in {empty, entries only, staged (first-ever Apply), established, staged change, policy ahead of staging} (24 pairs, 286 "
+                "Storer calls): the k-th call returns an injected error without being performed (then the operation is retried on the same "
+                "repository), or the operation is abandoned right after the k-th call; afterwards a fresh handle and an independent walker read "
+                "the log and the managed references. thorough: every k of every pair in both modes; quick: a VERIF_SEED-determined sample of 16 "
+                "(two thirds from the last five calls of each operation) plus the witnesses in corpus/C16 (a case costs 2-4 s here). The Lean "
+                "model is run with the same fault; call order of the uninterrupted run, results, final references and log, and the retry are "
+                "compared. non-trivial = the failing call is a mutation or precedes one; distinct by input hash.",
+        "trusted_base": COMMON_TB + ["object reads inside policy look-ups (GetLatestReferenceUpdaterEntry, LoadCurrentState+Verify, loadStateForEntry) are matched as a head call plus a run of read kinds, not call by call"],
+        "assumptions": ["the unit of failure is one Storer call (no torn write inside git)",
+                        "the diverged-staging branch of ReconcileStaging is built by the harness but not yet reproduced by the model (VERIF_C16_DIVERGED=1)",
+                        "crash verdicts: VerifyRef(refs/heads/main) before / after / after the crash are compared; other references' verdicts follow from the log comparison"],
+    },
+    "C17": {
+        "test": "TestC17",
+        "lean_modules": ["Gittuf.Props.C17"],
+        "n": {"quick": 90, "thorough": 700},
+        "shards": 1,
+        "rule": "two concurrent recording operations (record/record, record/annotate, annotate/annotate) on a real repository with a log of 0 or 2 "
+                "entries, their gitstore.Storer calls serialised by an explicit schedule; Commit taken as one Storer call and, separately, in its "
+                "two halves (read of the tip; object creation + CheckAndSetReference) as concurrent processes see it; per-thread entry cache "
+                "emulated. Systematic: every schedule with at most two preemptions (thread f runs i calls, g runs j calls, f finishes, g "
+                "finishes): 330 schedules, of which quick runs a VERIF_SEED-determined sample of 90 (a schedule costs about 1.5 s here) and "
+                "thorough all plus random schedules of three operations. After each schedule: results, call traces, the chain read by an "
+                "independent walker (git log + own parser) and by rsl.GetLatestEntry/GetParentForEntry; compared with the Lean model run on the "
+                "same schedule. non-trivial = at least two context switches; distinct by input hash.",
+        "trusted_base": COMMON_TB + ["the two halves of Repository.Commit are re-composed in the harness from GetReference / Commit on a scratch reference / CheckAndSetReference"],
+        "assumptions": ["interleavings inside one git update-ref are left to git's reference lock",
+                        "State.Commit / Apply as concurrent writers are not explored (their rollback is not compare-and-set)"],
+    },
 }
